@@ -7,10 +7,11 @@
 #include <atomic>
 #include <pthread.h>
 #include <sched.h>
+#include <sys/stat.h>
 
 using namespace prog;
 
-struct Op { int kind; /*0 create+assemble+destroy cycle*/ int combo, mode, chunk, start; bool internal; std::string program; int yield_mask; };
+struct Op { int kind; /*0 create+assemble+destroy cycle*/ int combo, mode, chunk, start; bool internal; std::string program; int yield_mask; int via_file = 0; /*1 the program is read through asm_assemble_file, 2 a directory is assembled (must fail), 3 deprecated alias*/ std::string path; };
 struct Res { int rc, off, cnt; uint64_t hash; bool operator==(const Res &o) const { return rc == o.rc && off == o.off && cnt == o.cnt && hash == o.hash; } };
 
 static std::atomic<int> in_create{0}, in_assemble{0}; static std::atomic<long> overlaps{0};
@@ -28,8 +29,11 @@ static Res exec(const Op &op, bool track) {
   asm_set_offset(a, op.start);
   maybe_yield(op.yield_mask, 2);
   if (track) { in_assemble++; if (in_create.load() > 0) overlaps++; }
-  if (op.mode == 2) { std::vector<char> w(op.program.begin(), op.program.end()); w.push_back(0); r.rc = asm_assemble_string_counting_chunks(a, w.data(), op.chunk, &r.cnt); }
-  else r.rc = asm_assemble_str(a, op.program.c_str());
+  std::vector<char> pth(op.path.begin(), op.path.end()); pth.push_back(0);
+  if (op.via_file == 2) r.rc = asm_assemble_file(a, pth.data());                       // a directory: open and fstat succeed, reading fails
+  else if (op.via_file == 1) r.rc = op.mode == 2 ? asm_assemble_file_counting_chunks(a, pth.data(), op.chunk, &r.cnt) : asm_assemble_file(a, pth.data());
+  else if (op.mode == 2) { std::vector<char> w(op.program.begin(), op.program.end()); w.push_back(0); r.rc = asm_assemble_string_counting_chunks(a, w.data(), op.chunk, &r.cnt); }
+  else r.rc = op.via_file == 3 ? assemble_str(a, op.program.c_str()) : asm_assemble_str(a, op.program.c_str());
   if (track) in_assemble--;
   r.off = asm_get_offset(a);
   if (r.rc == 0 && r.off >= op.start && r.off <= (int)ext.size()) { const uint8_t *p = (const uint8_t *)asm_get_code(a); uint64_t h = 1469598103934665603ULL; for (int i = 0; i < r.off; i++) { h ^= p[i]; h *= 1099511628211ULL; } r.hash = h; }
@@ -42,10 +46,16 @@ struct ThreadArg { std::vector<Op> *script; std::vector<Res> *out; pthread_barri
 static void *worker(void *p) { ThreadArg *t = (ThreadArg *)p; pthread_barrier_wait(t->bar); for (auto &op : *t->script) t->out->push_back(exec(op, true)); return nullptr; }
 
 int main(int argc, char **argv) {
-  if (argc < 5) { fprintf(stderr, "usage: c18_threads seed nthreads scripts rounds\n"); return 2; }
+  if (argc < 5) { fprintf(stderr, "usage: c18_threads seed nthreads scripts rounds [threads-first]\n"); return 2; }
   uint64_t seed = strtoull(argv[1], nullptr, 10); int nth = atoi(argv[2]), nops = atoi(argv[3]), rounds = atoi(argv[4]);
+  // threads-first: the concurrent phase is the very first use of the library in this process (the reference is computed afterwards)
+  bool threads_first = argc > 5;
+  std::string dir = std::string(getenv("VERIF_ROOT") ? getenv("VERIF_ROOT") : "/verif") + "/build/tmp"; mkdir((std::string(getenv("VERIF_ROOT") ? getenv("VERIF_ROOT") : "/verif") + "/build").c_str(), 0755); mkdir(dir.c_str(), 0755); dir += "/t" + std::to_string(getpid()); mkdir(dir.c_str(), 0755);
   // keep the library's stderr chatter out of the sanitizer report
-  Pool P = build_pool(seed, 1);
+  Pool P = threads_first ? Pool() : build_pool(seed, 1);
+  if (threads_first) { // a fixed pool: building the real one would use the library before the threads do
+    P.lines = {"xor rax, rax", "vpaddq ymm1, ymm2, ymm3", "mov rax, 0x1122334455667788", "add dword [rbx+rcx*4+8], 5", "shlx r8, r9, r10", "jne 0x100", "sub rsp, 8", "cmovne rdx, rsi", "lea r15, [2*rax]", "push r12", "pxor xmm1, xmm2", "test al, 1", "imul rcx, rdx, 7", "xchg rbx, rcx", "ror rdx, 3", "nop5"};
+    P.bad = {"foo rax, rbx", "mov rax, [rbx", "add rax, zzz"}; }
   hz::Rng r(seed * 7 + 18);
   long mismatches = 0, evals = 0; std::string first;
   for (int round = 0; round < rounds; round++) {
@@ -56,14 +66,19 @@ int main(int argc, char **argv) {
       int n = 1 + (int)r.below(12); bool failing = r.below(6) == 0;
       for (int k = 0; k < n; k++) { if (failing && k == n / 2) op.program += P.bad[r.below(P.bad.size())] + "\n"; op.program += P.lines[r.below(P.lines.size())] + "\n"; }
       // lookups of every first letter: lines start with different mnemonics by construction of the pool
+      int fsel = (int)r.below(10);
+      if (fsel < 3) { op.via_file = 1; op.path = dir + "/p" + std::to_string(t) + "_" + std::to_string(i) + ".asm"; FILE *f = fopen(op.path.c_str(), "wb"); if (f) { fwrite(op.program.data(), 1, op.program.size(), f); fclose(f); } }
+      else if (fsel == 3) { op.via_file = 2; op.path = dir; }
+      else if (fsel == 4) op.via_file = 3;
       scripts[t].push_back(op);
     }
-    for (int t = 0; t < nth; t++) for (auto &op : scripts[t]) ref[t].push_back(exec(op, false));   // single-threaded reference
+    if (!threads_first) for (int t = 0; t < nth; t++) for (auto &op : scripts[t]) ref[t].push_back(exec(op, false));   // single-threaded reference
     pthread_barrier_t bar; pthread_barrier_init(&bar, nullptr, nth);
     std::vector<pthread_t> th(nth); std::vector<ThreadArg> args(nth);
     for (int t = 0; t < nth; t++) { args[t] = {&scripts[t], &got[t], &bar}; pthread_create(&th[t], nullptr, worker, &args[t]); }
     for (int t = 0; t < nth; t++) pthread_join(th[t], nullptr);
     pthread_barrier_destroy(&bar);
+    if (threads_first) for (int t = 0; t < nth; t++) for (auto &op : scripts[t]) ref[t].push_back(exec(op, false));   // reference computed after the threads
     for (int t = 0; t < nth; t++) for (size_t i = 0; i < scripts[t].size(); i++) { evals++; if (i >= got[t].size() || !(got[t][i] == ref[t][i])) { mismatches++; if (first.empty()) { char b[200]; snprintf(b, sizeof b, "round %d thread %d op %zu: concurrent rc=%d off=%d cnt=%d, alone rc=%d off=%d cnt=%d", round, t, i, i < got[t].size() ? got[t][i].rc : -9, i < got[t].size() ? got[t][i].off : -9, i < got[t].size() ? got[t][i].cnt : -9, ref[t][i].rc, ref[t][i].off, ref[t][i].cnt); first = b; first += " ; program: " + hz::jesc(scripts[t][i].program.substr(0, 200)); } } }
   }
   printf("{\"evaluations\":%ld,\"mismatches\":%ld,\"overlaps\":%ld,\"threads\":%d,\"first\":\"%s\"}\n", evals, mismatches, overlaps.load(), nth, hz::jesc(first).c_str());
